@@ -731,7 +731,7 @@ def none_use(ctx):
                     r.check("C03.8", ok, "none-use::%s::%s::%s" % (f.qual, v, norm(u)[:40]), "%s:%d" % (rel, u.lineno),
                             "`%s` can still be None where `%s` is evaluated (it is initialised to None and tested elsewhere): "
                             "AttributeError / ValueError on that path" % (v, norm(u)[:60]), detail={"variable": v})
-    if n < 5:
+    if n < 3:
         raise AnalysisError("C03.8 matched %d uses" % n)
 
 
@@ -1193,6 +1193,227 @@ def prescan_exception_flow(ctx, rid="C03.19", entries=(("EncodingParser", "getEn
 
 
 
+# ---------------------------------------------------------------------------- C03.20 / C03.21 / C03.22
+# Phases in which the current node is known from the insertion mode itself (why a single pop there cannot reach the root)
+MODE_CURRENT_NODE = {
+    "InHeadPhase.endTagHead": "in 'in head' the current node is the head element (the mode is only entered after inserting it and left when it is popped)",
+    "InHeadNoscriptPhase.endTagNoscript": "in 'in head noscript' the current node is the noscript element",
+    "TextPhase.processEOF": "the text mode is entered right after inserting the raw-text / RCDATA element, which stays the current node",
+    "TextPhase.endTagScript": "as above: the current node is the script element",
+    "TextPhase.endTagOther": "as above: the current node is the element whose text is being read",
+}
+
+
+def single_pops(ctx):
+    """C03.20: a pop of the stack of open elements that is not in a loop (C03.5 covers loops) needs evidence that the current node
+    is not the root html element: (a) it pops what the same handler has just inserted; (b) a positive scope test dominates it
+    (directly, through a local holding the result, or through a helper that *is* a scope test -- its body is checked); (c) a test of
+    the current node's name that excludes html dominates it with no other pop in between; (d) the insertion mode fixes the current
+    node (table above).  Anything else can pop the root, after which every `openElements[-1]` raises IndexError."""
+    r = ctx.r
+    repo = ctx.repo
+    mod = repo.module(PARSER_REL)
+    helpers_ok = {}
+    for f in mod.all_functions:
+        if f.cls is not None and f.name.startswith("ignoreEndTag"):
+            rets = [x for x in walk_no_nested(f.node) if isinstance(x, ast.Return) and x.value is not None]
+            if rets and all(norm(x.value) in ("self.tree.openElements[-1].name == 'html'",) for x in rets):
+                helpers_ok[(f.cls.name, f.name)] = "isroot"
+                continue
+            helpers_ok[(f.cls.name, f.name)] = bool(rets) and all(
+                isinstance(x.value, ast.UnaryOp) and isinstance(x.value.op, ast.Not) and "elementInScope(" in norm(x.value.operand) for x in rets) or \
+                (bool(rets) and all("elementInScope(" in norm(x.value) and " and " in norm(x.value) and norm(x.value).count("not ") >= 2 for x in rets))
+    for rel in (PARSER_REL, "treebuilders/base.py"):
+        for f in repo.module(rel).all_functions:
+            pops = [c for c in walk_no_nested(f.node) if isinstance(c, ast.Call) and isinstance(c.func, ast.Attribute) and c.func.attr == "pop"
+                    and (attr_chain(c.func.value) or [""])[-1] == "openElements" and not c.args]
+            if not pops:
+                continue
+            cfg = CFG(f.node)
+            scope_vars = {a.targets[0].id for a in walk_no_nested(f.node) if isinstance(a, ast.Assign) and len(a.targets) == 1 and
+                          isinstance(a.targets[0], ast.Name) and "elementInScope(" in norm(a.value) and not norm(a.value).startswith("not ")}
+            ignore_vars = {a.targets[0].id: norm(a.value) for a in walk_no_nested(f.node) if isinstance(a, ast.Assign) and len(a.targets) == 1 and
+                           isinstance(a.targets[0], ast.Name) and "ignoreEndTag" in norm(a.value)}
+
+            def is_pop_node(n):
+                return any((attr_chain(c.func) or [""])[-2:] == ["openElements", "pop"] for c in node_calls(n)) or \
+                    any((attr_chain(c.func) or [""])[-1].startswith("clearStackTo") or (attr_chain(c.func) or [""])[-1] == "generateImpliedEndTags"
+                        for c in node_calls(n))
+            for pc in pops:
+                nds = cfg.locate(pc)
+                if not nds or any(nd.id in cfg.reach_forward([nd], lambda n: False) for nd in nds):
+                    continue        # in a loop: C03.5
+                key = "single-pop::%s::line-order-%d" % (f.qual, pops.index(pc))
+                where = "%s:%d" % (rel, pc.lineno)
+                why = None
+                # (a) every path to the pop passes an insertElement after which nothing else was popped
+                ins = lambda n: any((attr_chain(c.func) or [""])[-1] in ("insertElement", "insertHtmlElement", "insertElementNormal", "insertElementTable")  # noqa: E731
+                                    for c in node_calls(n))
+                if not cfg.must_precede(nds, ins):
+                    par = cfg.reach_backward(nds, ins)
+                    between = [cfg.nodes[i] for i in par if cfg.nodes[i] not in nds and is_pop_node(cfg.nodes[i]) and not ins(cfg.nodes[i])]
+                    if not between:
+                        why = "pops the element the handler has just inserted"
+                # (b) scope evidence
+                helper_bad = None
+                isroot_tests = []
+                if why is None:
+                    def scope_ev(n, lab):
+                        nonlocal helper_bad
+                        if n.kind != "test":
+                            return False
+                        t = norm(n.ast)
+                        if "elementInScope(" in t and not t.startswith("not ") and lab is True:
+                            return True
+                        if t.startswith("not ") and "elementInScope(" in t and lab is False:
+                            return True
+                        if t in scope_vars and lab is True:
+                            return True
+                        m_ = None
+                        for txt, neg in ((t, False), (t[4:], True)) if t.startswith("not ") else ((t, False),):
+                            src_ = ignore_vars.get(txt, txt)
+                            if src_.startswith("self.ignoreEndTag") and src_.endswith("()"):
+                                m_ = (src_[5:-2], neg)
+                        if m_ is not None and f.cls is not None:
+                            name_, neg = m_
+                            cls_ = next((c for c in f.cls.mro() if name_ in c.methods), None)
+                            ok_ = helpers_ok.get((cls_.name, name_)) if cls_ else None
+                            if (lab is False) != neg:          # the "not ignored" edge
+                                if ok_ is True:
+                                    return True
+                                if ok_ == "isroot":
+                                    isroot_tests.append(n)
+                                    return False
+                                helper_bad = name_
+                        return False
+                    if all(cfg.dominated_by(nd, scope_ev) for nd in nds):
+                        why = "dominated by a positive scope test"
+                # (c) a name test on the current node that excludes html, no pop in between
+                if why is None:
+                    def name_ev(n, lab):
+                        if n.kind != "test":
+                            return False
+                        t = norm(n.ast)
+                        if "openElements[-1].name" not in t and "currentNode.name" not in t:
+                            return False
+                        if ("== 'html'" in t) and lab is False and " or " not in t and " and " not in t:
+                            return True
+                        return lab is True and "'html'" not in t and "!=" not in t and "not in" not in t and ("==" in t or " in " in t)
+                    if all(cfg.dominated_by(nd, name_ev) for nd in nds):
+                        tests = [n for n in cfg.nodes if n.kind == "test" and name_ev(n, True) or n.kind == "test" and name_ev(n, False)]
+                        par = cfg.reach_backward(nds, lambda n: n in tests)
+                        between = [cfg.nodes[i] for i in par if cfg.nodes[i] not in nds and is_pop_node(cfg.nodes[i])]
+                        if not between:
+                            why = "dominated by a test of the current node's name that excludes html"
+                if why is None and isroot_tests:
+                    # guard helper = "the current node is the root": on its false edge the current node is another element,
+                    # provided nothing is popped between the test and the pop
+                    dom = all(cfg.dominated_by(nd, lambda n, lab: n in isroot_tests) for nd in nds)
+                    par = cfg.reach_backward(nds, lambda n: n in isroot_tests)
+                    between = [cfg.nodes[i] for i in par if cfg.nodes[i] not in nds and is_pop_node(cfg.nodes[i])]
+                    if dom and not between:
+                        why = "dominated by an is-the-root test of the current node (helper), nothing popped in between"
+                        helper_bad = None
+                if why is None and f.qual in MODE_CURRENT_NODE:
+                    why = "mode invariant: " + MODE_CURRENT_NODE[f.qual]
+                r.check("C03.20", why is not None, key, where,
+                        "%s pops the stack of open elements once with no evidence that the current node is not the root html element%s: "
+                        "with nothing but html on the stack (fragment parsing, stray end tags) the root is popped and the next "
+                        "`openElements[-1]` raises IndexError" % (
+                            f.qual, (" (its guard %s() is no longer a scope test)" % helper_bad) if helper_bad else ""),
+                        {"function": f.qual}, detail={"function": f.qual, "evidence": why})
+
+
+def scope_variant_agreement(ctx):
+    """C03.21: within one insertion mode an element name is looked up in *one* kind of scope (in cell: td / th in table scope, ...).
+    A guard that tests "td in table scope" in front of a helper that closes "td in (default) scope" can be true while the helper
+    does nothing (an applet / object / marquee / foreign integration point open inside the cell): the handler then hands the token
+    back for reprocessing with nothing changed -- the main loop never ends."""
+    r = ctx.r
+    mod = ctx.repo.module(PARSER_REL)
+    table = {}
+    for f in mod.all_functions:
+        if f.cls is None:
+            continue
+        loops = {}
+        for lp in ast.walk(f.node):
+            if isinstance(lp, ast.For) and isinstance(lp.target, ast.Name):
+                vals = ctx.ce.try_eval(lp.iter, mod)
+                if isinstance(vals, (tuple, list)) and all(isinstance(v, str) for v in vals):
+                    loops[lp.target.id] = list(vals)
+        for c in ast.walk(f.node):
+            if isinstance(c, ast.Call) and isinstance(c.func, ast.Attribute) and c.func.attr == "elementInScope" and c.args:
+                a0 = c.args[0]
+                names = [a0.value] if isinstance(a0, ast.Constant) and isinstance(a0.value, str) else loops.get(a0.id, []) if isinstance(a0, ast.Name) else []
+                var = next((ctx.ce.try_eval(k.value, mod) for k in c.keywords if k.arg == "variant"), None)
+                if var is None and len(c.args) > 1:
+                    var = ctx.ce.try_eval(c.args[1], mod)
+                for nm in names:
+                    table.setdefault((f.cls.name, nm), []).append((var or "default", f.name, c.lineno))
+    for (cls, nm), uses in sorted(table.items()):
+        variants = sorted({u[0] for u in uses})
+        r.check("C03.21", len(variants) == 1, "scope-variant::%s::%s" % (cls, nm), "%s:%d" % (PARSER_REL, uses[0][2]),
+                "%s looks `%s` up in different scopes: %s -- a guard in one scope in front of an action in another can hold while the action does "
+                "nothing, and a handler that then returns the token for reprocessing loops for ever (`<table><tr><td><object><param></tr>`)"
+                % (cls, nm, ", ".join("%s in %s" % (v, sorted({u[1] for u in uses if u[0] == v})) for v in variants)),
+                {"class": cls, "element": nm}, detail={"variant": variants[0] if len(variants) == 1 else variants})
+
+
+def stdlib_recursion(ctx):
+    """C03.22: the DOM back-end calls into xml.dom.minidom; a minidom method that recurses once per tree level (read off the
+    standard library's source: normalize, writexml / toxml, unlink, a deep cloneNode, ...) turns input nesting depth into Python
+    recursion depth, i.e. RecursionError for a few thousand nested elements.  No function on the parse path may call one."""
+    from .c04 import _stdlib_source
+    r = ctx.r
+    tree = _stdlib_source("xml.dom.minidom")
+    if tree is None:
+        r.idiom("C03.22", False, "minidom-recursive-methods", "treebuilders/dom.py", "the source of xml.dom.minidom was not found")
+        return
+    # a function recurses over the *depth* of the tree when, inside a loop over child nodes, it calls itself (by its own name) on /
+    # with the loop variable; wrappers of such functions (toxml -> toprettyxml -> writexml, cloneNode -> _clone_node) inherit that
+    calls, depth_rec = {}, set()
+    for fn in ast.walk(tree):
+        if isinstance(fn, ast.FunctionDef):
+            out = calls.setdefault(fn.name, set())
+            for c in ast.walk(fn):
+                if isinstance(c, ast.Call):
+                    out.add(c.func.attr if isinstance(c.func, ast.Attribute) else c.func.id if isinstance(c.func, ast.Name) else "")
+            for lp in ast.walk(fn):
+                if isinstance(lp, ast.For) and isinstance(lp.target, ast.Name) and "childNodes" in norm(lp.iter):
+                    v = lp.target.id
+                    for c in ast.walk(lp):
+                        if isinstance(c, ast.Call):
+                            nm = c.func.attr if isinstance(c.func, ast.Attribute) else c.func.id if isinstance(c.func, ast.Name) else ""
+                            uses_v = (isinstance(c.func, ast.Attribute) and norm(c.func.value) == v) or any(norm(a) == v for a in c.args)
+                            if nm == fn.name and uses_v:
+                                depth_rec.add(fn.name)
+    if not {"normalize", "unlink", "writexml", "_clone_node"} <= depth_rec:
+        raise AnalysisError("C03.22: the depth-recursive minidom methods were not recognised (%s)" % sorted(depth_rec))
+    # wrappers, each confirmed against the source: the wrapper's own body reaches the depth-recursive function it is listed with
+    WRAPPERS = {"toprettyxml": "writexml", "toxml": "toprettyxml", "cloneNode": "_clone_node", "importNode": "_clone_node"}
+    reach_rec = set(depth_rec)
+    for w, target in WRAPPERS.items():
+        if target in calls.get(w, ()) and (target in reach_rec or WRAPPERS.get(target) in calls.get(target, ())):
+            reach_rec.add(w)
+    mod = ctx.repo.module("treebuilders/dom.py")
+    n = 0
+    for f in mod.all_functions:
+        if f.name in ("testSerializer", "serializeElement", "dom2sax"):
+            continue                  # debugging / conversion helpers, not on the parse path
+        for c in walk_no_nested(f.node):
+            if isinstance(c, ast.Call) and isinstance(c.func, ast.Attribute):
+                nm = c.func.attr
+                n += 1
+                shallow_clone = nm == "cloneNode" and c.args and isinstance(c.args[0], ast.Constant) and c.args[0].value is False
+                rec = nm in reach_rec and not shallow_clone and not norm(c.func.value).startswith(("self.tree", "base.", "self.parser"))
+                own = any(nm in cl.methods for cl in mod.all_classes)
+                r.check("C03.22", not rec or own, "minidom-call::%s::%s" % (f.qual, nm), "treebuilders/dom.py:%d" % c.lineno,
+                        "%s calls %s(), which in xml.dom.minidom calls itself once per tree level: parsing a document nested a few thousand "
+                        "elements deep with the dom tree builder raises RecursionError" % (f.qual, nm), {"method": nm})
+    if n < 10:
+        raise AnalysisError("C03.22: only %d calls found in treebuilders/dom.py" % n)
+
+
 # ---------------------------------------------------------------------------- C03.6
 def dispatch_total(ctx):
     r = ctx.r
@@ -1230,7 +1451,7 @@ def run(ctx):
     r.rule("C03.4", "skeleton: one root creator; html/head/body created only by the standard's handlers; no text above body", floor=15)
     r.rule("C03.5", "pop loops / deep indexes on the open-element stack are dominated by a scope test or sentinel", floor=20)
     r.rule("C03.7", "a node detached from the tree while on the stack of open elements is removed from the stack on every path", floor=1)
-    r.rule("C03.8", "a local initialised to None and tested elsewhere is not dereferenced on a path on which it can be None", floor=5)
+    r.rule("C03.8", "a local initialised to None and tested elsewhere is not dereferenced on a path on which it can be None", floor=3)
     r.rule("C03.10", "name tests in resetInsertionMode apply to HTML-namespace elements only", floor=2)
     r.rule("C03.11", "a possibly-None return component is not passed to a parameter that is dereferenced unconditionally", floor=2)
     r.rule("C03.9", "a handler that hands the token back for reprocessing has changed the insertion mode / stack first", floor=40)
@@ -1239,6 +1460,9 @@ def run(ctx):
     r.rule("C03.15", "the DOM back-end removes a child only after checking the real parent", floor=1)
     r.rule("C03.13", "int() of input text uses a power-of-two radix, a ValueError handler or a length guard", floor=1)
     r.rule("C03.19", "neither StopIteration nor ValueError can leave the encoding pre-scan (cursor typestate + exception flow)", floor=1)
+    r.rule("C03.20", "a single pop of the stack of open elements has evidence that the current node is not the root", floor=30)
+    r.rule("C03.21", "within one insertion mode an element name is looked up in one kind of scope", floor=15)
+    r.rule("C03.22", "the DOM back-end calls no minidom method that recurses over the depth of the tree", floor=10)
     r.rule("C03.6", "every phase has a concrete handler for every token kind and tag name", floor=100)
     constkey(ctx)
     recursion(ctx)
@@ -1259,6 +1483,9 @@ def run(ctx):
     from .c06 import bom_read_and_seek
     bom_read_and_seek(ctx, "C03.17", "C03.18")
     prescan_exception_flow(ctx)
+    single_pops(ctx)
+    scope_variant_agreement(ctx)
+    stdlib_recursion(ctx)
     dispatch_total(ctx)
     from . import c03_tok
     c03_tok.run(ctx)
@@ -1272,6 +1499,9 @@ def thorough(ctx):
 def mutants():
     from ..selftest import TextMutant as T
     return [
+        T("single-pop-guard-not-a-scope-test", "html5parser.py", "    def ignoreEndTagTr(self):\n        return not self.tree.elementInScope(\"tr\", variant=\"table\")", "    def ignoreEndTagTr(self):\n        return self.tree.openElements[-1].name == \"html\"", "C03.20"),
+        T("closecell-default-scope", "html5parser.py", "        if self.tree.elementInScope(\"td\", variant=\"table\"):\n            self.endTagTableCell(impliedTagToken(\"td\"))", "        if self.tree.elementInScope(\"td\"):\n            self.endTagTableCell(impliedTagToken(\"td\"))", "C03.21"),
+        T("dom-normalize", "treebuilders/dom.py", "            return base.TreeBuilder.getFragment(self).element", "            fragment = base.TreeBuilder.getFragment(self).element\n            fragment.normalize()\n            return fragment", "C03.22"),
         T("bom-single-read", "_inputstream.py", "        while len(string) < 4:\n            more = self.rawStream.read(4 - len(string))\n            if not more:\n                break\n            string += more\n", "", "C03.18"),
         T("bom-seek-constant", "_inputstream.py", "        encoding = None\n        seek = 0\n        for bom, name in bomDict.items():\n            if string.startswith(bom):\n                encoding = name\n                seek = len(bom)\n                break\n",
           "        encoding = bomDict.get(string[:3])\n        seek = 3\n        if not encoding:\n            encoding = bomDict.get(string[:2])\n            seek = 2\n", "C03.17"),
